@@ -20,6 +20,10 @@ def snapshot(obj, _seen=None, _depth=0):
         if obj.dtype == object:
             return ("ndarray_obj", [snapshot(o, _seen, _depth + 1) for o in obj.ravel().tolist()], obj.shape)
         return ("ndarray", obj.shape, str(obj.dtype), obj.tobytes())
+    if isinstance(obj, np.random.Generator):
+        return ("Generator", repr(obj.bit_generator.state))  # a generator that advanced is a changed object
+    if isinstance(obj, np.random.RandomState):
+        return ("RandomState", repr(obj.get_state()))
     oid = id(obj)
     if oid in _seen:
         return ("ref", _seen[oid])
